@@ -278,6 +278,11 @@ def check_timeframes(repo, rep):
     labels = list(tfs.values())
     mins = {l: label_minutes(l) for l in labels}
     cases = [[l] for l in labels] + [list(p) for p in itertools.combinations(labels, 2)] + [labels]
+    # ... both orders of every pair, and every ORDERED triple of six timeframes: the answer must not depend on the order of the list (a
+    # one-shot iterator consumed by `in`, an early exit) - "correct on all pairs" is an argument about cascades only
+    cases += [list(reversed(p)) for p in itertools.combinations(labels, 2)]
+    six = [l for l in ("1m", "5m", "1h", "4h", "1D", "1W") if l in labels]
+    cases += [list(p) for p in itertools.permutations(six, 3)] + [list(reversed(labels))]
     for lst in cases:
         outs = W.run_function(repo, HELPERS, "max_timeframe", lambda it: ([list(lst)], {}))
         want = max(lst, key=lambda l: mins[l])
@@ -300,7 +305,7 @@ def check_timeframes(repo, rep):
             rep.instance(rid, f"anchor|{l}", {"timeframe": l, "anchor": a})
     if n < 10:
         raise AnalysisError("anchor_timeframe: fewer than 10 mapped timeframes")
-    rep.floor(rid, 150)
+    rep.floor(rid, 400)
 
 
 def check_acceptance(repo, rep):
